@@ -185,8 +185,6 @@ Proof.
   unfold real_rel. apply rel_arm_ok. rewrite F1. f_equal. change (RelWrapGrammarP.ws_tree fl) with (RelWrapGrammarP.ws_tree fc). symmetry. exact G1.
 Qed.
 
-(* ---------------------------------------------------------------- format_field, branch by branch *)
-Definition is_rel_field (name : str) : bool := existsb (str_eqb name) (Lit.relation_fields true).
 
 Lemma real_ff_uploaders name v : str_eqb name Lit.k_Uploaders = true -> real_format_field name v = Ok (fmt_uploaders_h v).
 Proof. intros H. unfold real_format_field, format_field. rewrite H. reflexivity. Qed.
@@ -351,13 +349,6 @@ Proof.
   - rewrite E. apply shaped_lexes. exact HsF.
 Qed.
 
-Definition field_facts (c : wcfg) (f : field) : Prop :=
-  real_format_field (f_name f) (field_input f) = Ok (ctl_total (f_name f) (field_input f)) /\
-  fmt_shaped_on (Some ctl_total) f = true /\
-  field_stable c (Some ctl_total) f /\ fmt_lexes (Some ctl_total) (a_ws_field c (Some ctl_total) f) /\
-  real_format_field (f_name f) (field_input (a_ws_field c (Some ctl_total) f))
-    = Ok (ctl_total (f_name f) (field_input (a_ws_field c (Some ctl_total) f))) /\
-  (str_eqb (f_name f) Lit.k_Uploaders = false -> is_rel_field (f_name f) = false -> a_value (Some ctl_total) f = field_value f).
 
 Theorem ctl_field_facts c f m : ind_ok c = true -> wf_field f m = true -> ctl_field_ok f -> field_facts c f.
 Proof.
@@ -551,16 +542,6 @@ Proof.
   - intros a b Ha Hb. apply (control_cmp_invariant c a b (Hfa a Ha) (Hfa b Hb)).
 Qed.
 
-(* ---------------------------------------------------------------- (3) idempotence with any formatter: what it takes *)
-(* The formatter absorbs the re-layout ON THIS DOCUMENT: on every field, its output does not start
-   with a blank or a line break, and it gives the same output when that output comes back with
-   blanks / line breaks in front (all the re-layout of a value adds).  Weaker than [absorbing]: a
-   formatter may treat fields of different names differently (format_field does). *)
-Definition absorbs_on (g : str -> str -> str) (l : ldocl) : Prop :=
-  forall its f, In (LPara its) l -> In (IField f) its ->
-    let o := g (f_name f) (field_input f) in
-    (forall lead, forallb lead_char lead = true -> g (f_name f) (lead ++ o) = o) /\
-    match o with [] => True | ch :: _ => lead_char ch = false end.
 
 Theorem absorbs_on_idem_proof c psort pcmp esort ecmp g d :
   ind_ok c = true -> pcmp_agrees psort pcmp -> ecmp_agrees esort ecmp -> wf_doc d = true ->
@@ -578,19 +559,6 @@ Proof.
   apply absorbing_stable_local; [exact A1|exact A2|exact Hc|apply (Hsh its f Hi Hf)].
 Qed.
 
-(* ... and it does take something: a formatter that appends "!" is shaped, and every application
-   appends another one *)
-Module WF.
-  Import Coq.Strings.String.
-  Local Open Scope string_scope.
-  Definition bang (k v : str) : str := (v ++ Lit.s2l "!")%list.
-  Definition d_bang : doc := [BPara (mk_field (Lit.s2l "A") (Lit.s2l " ") (Lit.s2l "b") [] true) []].
-  Definition c2 : wcfg := mk_wcfg (Spaces 2) false None.
-  Definition once : str := Lit.s2l "A: b!
-".
-  Definition twice : str := Lit.s2l "A: b!!
-".
-End WF.
 Lemma bang_not_idempotent :
   doc_shaped (Some WF.bang) (lift WF.d_bang) /\
   exists t1 t2, std_ws fixed WF.c2 None None (Some (pure_fmt WF.bang)) (tree_of WF.d_bang) = Ok t1 /\ text t1 = WF.once /\
